@@ -30,6 +30,9 @@ SPECS = [
     ("dom/parser.h", r"#define FLOATING_LONGEST_DIGITS (\d+)", ["numLongestDigits"]),
     ("dom/parser.h", r"if \(man_nd > (\d+)\) \{  // slow path", ["numMaxIntDigits"]),
     ("dom/parser.h", r"if \(sonic_likely\(exp < (\d+)\)\) \{", ["numExpCap"]),
+    ("dom/parser.h", r"exp10 = exp10_wide > (\d+)\s*\? \1\s*: exp10_wide < -\1\s*\? -\1", ["numExp10Clamp"]),
+    ("internal/atof_native.h", r"if \(exp < (\d+)\) \{\s*exp = exp \* 10", ["decExpCap"]),
+    ("internal/atof_native.h", r"d->dp = dp_wide > (\d+)\s*\? \1\s*: dp_wide < -\1\s*\? -\1", ["decDpClamp"]),
     ("dom/parser.h", r"\(man >> (\d+)\) == 0 && exp10 <= \((\d+) \+ (\d+)\) && exp10 >= -(\d+)", ["numFastManBits", "numFastExpA", "numFastExpB", "numFastExpNeg"]),
     ("dom/parser.h", r"!trunc && exp10 > -(\d+) \+ (\d+) && exp10 < \+(\d+) - (\d+)", ["numNfLoA", "numNfLoB", "numNfHiA", "numNfHiB"]),
     ("dom/parser.h", r"uint8_t \*dst = \(uint8_t \*\)alloc\.Malloc\(sn \+ (\d+)\);", ["lazyKeySlack"]),
